@@ -33,8 +33,8 @@ CHECKS = {
         "design": "DESIGN.md section 5 C12",
     },
     "C13": {
-        "text": "Coq (sequential clause, all call sequences): after every call and after recovery memory_usage = sum over live keys of (R + |key| + |value|) and one binding per key (so len = number of live keys); with a limit no call pushes usage above it; a refused write changes neither contents nor the counter. Tie: memory_usage() and len() compared after every call of the C01 sequences, including configurations under a limit that admits only some writes and after reopen.",
-        "note": TRUST + " The concurrent clause (no interleaving of writers exceeds the limit) is not decided by this check.",
+        "text": "Coq (sequential clause, all call sequences): after every call and after recovery memory_usage = sum over live keys of (R + |key| + |value|) and one binding per key (so len = number of live keys); with a limit no call pushes usage above it; a refused write changes neither contents nor the counter. Tie: memory_usage() and len() compared after every call of the C01 sequences, including configurations under a limit that admits only some writes (memory-only and persistent) and after reopen. Concurrent clause: proved over Model/MemLimit.v (the compare-exchange loop of reserve_memory, commits, drops, releases) that for any number of threads and any interleaving the counter never exceeds the limit and equals what the threads account for; tied by races of creators, growers and deleters against a limit with a sampling monitor, and by an exact-accounting oracle at quiescence over the C07 histories.",
+        "note": TRUST + " The link between the store's call paths and the reservation protocol (each path reserves its growth before publishing and releases after) is checked by the quiescent accounting oracle, not proved; relaxed atomics are modelled as sequentially consistent steps on one counter.",
         "design": "DESIGN.md section 5 C13",
     },
     "C14": {
